@@ -120,10 +120,13 @@ fn gen_c05(ctx: &GenCtx, i: u64) -> Option<Run> {
         spec.default_validators = vlayer == Layer::Batteries;
         let v = rb.verifier(spec);
         rb.deliver(t.msg, v, at);
-        let seq: Vec<String> = vec![nonempty_text!(r, 6), String::new(), footer.clone().unwrap_or_default(), "zz".into(), String::new()];
+        // "" directly after the matching footer, after another one, and back again
+        let fm = footer.clone().unwrap_or_default();
+        let seq: Vec<String> = vec![String::new(), nonempty_text!(r, 6), String::new(), fm.clone(), String::new(), fm, "zz".into(), String::new()];
+        let control = plain_spec(&t, vlayer);
         for f in seq {
             rb.push(Op::Reconfigure { v, op: VOp::SetFooter(f) });
-            rb.deliver(t.msg, v, at);
+            rb.push(Op::Deliver { msg: t.msg, to: v, now_ns: Ns(at), ticks: vec![], twin: false, control: Some(Box::new(VerifierSpec { default_validators: vlayer == Layer::Batteries, ..control.clone() })), key: None });
         }
     }
     for (n, fv) in vs.into_iter().enumerate() {
@@ -230,10 +233,12 @@ fn gen_c06(ctx: &GenCtx, i: u64) -> Option<Run> {
                 spec.default_validators = vlayer == Layer::Batteries;
                 let v = rb.verifier(spec);
                 rb.deliver(t.msg, v, at);
-                let seq: Vec<String> = vec![nonempty_text!(r, 6), String::new(), assertion.clone().unwrap_or_default(), "zz".into(), String::new()];
+                let am = assertion.clone().unwrap_or_default();
+                let seq: Vec<String> = vec![String::new(), nonempty_text!(r, 6), String::new(), am.clone(), String::new(), am, "zz".into(), String::new()];
+                let control = plain_spec(&t, vlayer);
                 for a in seq {
                     rb.push(Op::Reconfigure { v, op: VOp::SetAssertion(a) });
-                    rb.deliver(t.msg, v, at);
+                    rb.push(Op::Deliver { msg: t.msg, to: v, now_ns: Ns(at), ticks: vec![], twin: false, control: Some(Box::new(VerifierSpec { default_validators: vlayer == Layer::Batteries, ..control.clone() })), key: None });
                 }
             }
             for (n, av) in vs.into_iter().enumerate() {
